@@ -593,6 +593,7 @@ func (o *Obl) query() string {
 	}
 	// errors created by fmt.Errorf/errors.New: errors.Is/As go through the wrapped error only
 	b.WriteString(o.D.errAxioms())
+	b.WriteString(o.D.litAxioms())
 	var sents []string
 	for name := range o.D.set {
 		if strings.HasPrefix(strings.Trim(name, "|"), "sentinel!") {
@@ -660,6 +661,34 @@ func (e *Engine) solveAll(obls []*Obl) {
 			to := e.timeoutS
 			if o.Cover && to > 3 {
 				to = 3
+			}
+			if !o.Cover && len(o.Insts) > 3 {
+				// many paths reach this obligation: discharge them in small groups (each group must be valid)
+				all := o.Insts
+				var total int64
+				solver := ""
+				res := SolverResult{Status: "unsat"}
+				for i := 0; i < len(all); i += 3 {
+					j := i + 3
+					if j > len(all) {
+						j = len(all)
+					}
+					o.Insts = all[i:j]
+					r := runQuery(e.outDir+"/smt", fmt.Sprintf("%s.part%d", o.Name, i/3), o.query(), to, o.Quant, e.seed)
+					total += r.Ms
+					solver = r.Solver
+					if r.Status != "unsat" {
+						res = r
+						break
+					}
+				}
+				if res.Status == "unsat" {
+					o.Insts = all
+					res.Solver = solver
+				}
+				res.Ms = total
+				o.Result = res
+				return
 			}
 			o.Result = runQuery(e.outDir+"/smt", o.Name, o.query(), to, o.Quant, e.seed)
 		}()
@@ -772,8 +801,18 @@ func (u *Unit) useAxioms(st *State) {
 			u.d.axiom(g)
 			u.trusted["axiom "+name+": "+ax.Text] = true
 		}
+		for _, lm := range u.eng.cs.Lemmas {
+			if lm.Name != name {
+				continue
+			}
+			found = true
+			// a lemma is proved as its own obligation; here it is only instantiated
+			env := &SpecEnv{names: map[string]*Val{}, pkg: u.eng.pkgOr(lm.Pkg, u.pkg), what: "lemma " + name}
+			g, _ := u.evalSpecBool(st, lm.E, env, true)
+			u.d.axiom(g)
+		}
 		if !found {
-			u.eng.specError("%s: uses unknown axiom %s", u.name, name)
+			u.eng.specError("%s: uses unknown axiom or lemma %s", u.name, name)
 		}
 	}
 }
